@@ -43,7 +43,12 @@ def register(M):
     B['len'] = b_len
 
     def set_card(S, st):
+        reg = st.ghost.get('cards', ())
+        for (c0, m0) in reg:
+            if m0 is S.member:
+                return c0
         c = z3.Int(fresh_name('card'))
+        st.ghost['cards'] = tuple(reg) + ((c, S.member),)
         x, y = set_elem_var(S), set_elem_var(S)
         st.assume(c >= 0)
         ne = set_nonempty(S)
@@ -70,13 +75,22 @@ def register(M):
             mask = v[1]
             return st.alloc(SSet(lambda x: AND(in_range(x, 0, mask.shape[0]), ex.truth(mask.get(x), st)), INT))
         if tag(v) == 'range' and v[3] == 1:
-            return st.alloc(SSet(lambda x: in_range(x, v[1], v[2]), INT))
+            S = SSet(lambda x: in_range(x, v[1], v[2]), INT)
+            st.ghost['want_cards'] = True
+            st.assume(set_card(S, st) == Z(M.nonneg_diff(v[2], v[1])))
+            ex.use('L-CARD:card of an integer interval')
+            return st.alloc(S)
         if tag(v) in LAZY:
             v = st.deref(materialise(M, v, st))
         if isinstance(v, SSet):
             return st.alloc(SSet(v.member, v.elem))
         if isinstance(v, SList):
-            return st.alloc(set_of_list(v))
+            S = set_of_list(v)
+            if st.ghost.get('cards') or st.ghost.get('want_cards'):
+                c = set_card(S, st)
+                st.assume(AND(c <= Z(v.n), IMPLIES(list_distinct(v), c == Z(v.n))))
+                ex.use('L-CARD:a list without repetition of length n has n distinct elements')
+            return st.alloc(S)
         if isinstance(v, SArr) and v.ndim == 1:
             k = bvar('k')
             return st.alloc(SSet(lambda x: exists([k], AND(in_range(k, 0, v.shape[0]), EQ(v.get(k), x))), KIND_T[v.kind]))
